@@ -1,6 +1,7 @@
 pub mod c01;
 pub mod c02;
 pub mod c03;
+pub mod c03w;
 pub mod c04;
 pub mod c05;
 pub mod c06;
